@@ -37,6 +37,19 @@ def _module_state(ctx: Ctx) -> Dict[Tuple[str, str], List[str]]:
         shadow = local_stores - globals_declared
         # a local that is nothing but another name for a module-level object: x = TABLE ; x.insert(...) changes TABLE
         alias: Dict[str, str] = {}
+        # ... also when the name was bound in an enclosing function and this closure changes the object through it
+        enc = f.parent
+        while enc is not None:
+            enc_stores = {}
+            for node in body_walk(enc.node):
+                if isinstance(node, ast.Name) and isinstance(node.ctx, ast.Store):
+                    enc_stores[node.id] = enc_stores.get(node.id, 0) + 1
+            for node in body_walk(enc.node):
+                if isinstance(node, ast.Assign) and len(node.targets) == 1 and isinstance(node.targets[0], ast.Name) and isinstance(node.value, ast.Name) \
+                        and node.value.id in top and not isinstance(mod.top[node.value.id], (ast.FunctionDef, ast.ClassDef, ast.AsyncFunctionDef)) \
+                        and enc_stores.get(node.targets[0].id) == 1 and node.targets[0].id not in local_stores:
+                    alias.setdefault(node.targets[0].id, node.value.id)
+            enc = enc.parent
         for node in body_walk(f.node):
             if isinstance(node, ast.Assign) and len(node.targets) == 1 and isinstance(node.targets[0], ast.Name) and isinstance(node.value, ast.Name) \
                     and node.value.id in top and node.value.id not in shadow and not isinstance(mod.top[node.value.id], (ast.FunctionDef, ast.ClassDef, ast.AsyncFunctionDef)):
